@@ -21,12 +21,13 @@ def hygiene_case(pair, ops, res, secret):
                             raise Violation("secret:on-disk", "after %s the %s file still contains (part of) the secret key at offset %d" %
                                             (op_text(op), name, content.find(w)), k)
                 if op[0] == "readonly":
-                    # second call: nothing changes, nothing is written
-                    n0, _ = parse_journal(p.impl.cmd("journal D 0"))
+                    # second call: reports that nothing changed (since the repair of finding D25 it rewrites the two header
+                    # slots again, which must change no observation: the probes of the history runner follow)
+                    i0 = p.impl.cmd("info W")
                     ia, _ = p.do("readonly W")
                     n1, _ = parse_journal(p.impl.cmd("journal D 0"))
-                    if ia != "ok 0" or n1 != n0:
-                        raise Violation("readonly:second", "second make_read_only answered %s and issued %d storage operations" % (ia, n1 - n0), k)
+                    if ia != "ok 0" or p.impl.cmd("info W") != i0:
+                        raise Violation("readonly:second", "second make_read_only answered %s; info before %s, after %s" % (ia, i0, p.impl.cmd("info W")), k)
                     ia, _ = p.do("append W 6161")
                     n2, _ = parse_journal(p.impl.cmd("journal D 0"))
                     if ia != "err NotWritable" or n2 != n1:
@@ -52,6 +53,49 @@ def hygiene_case(pair, ops, res, secret):
     return None
 
 
+def crashed_call_then_again(pair, res, secret, tier):
+    """a crash at every point inside make_read_only, reopen, and make_read_only AGAIN on the recovered core: once that
+    call has returned (true or false) no storage file may contain the secret key, the core is read-only and all data
+    is intact. (Found by the proof of ReadOnly.v: example toy_secret_survives_crash_then_noop_refuted.)"""
+    im = pair.impl
+    found = []
+    for nap in range(0, 4 if tier == "quick" else 9):
+        setup = ["disk D", "new W D writer"] + ["append W %s" % hexb(bytes([97 + j]) * (j + 1)) for j in range(nap)]
+        im.cmd("reset")
+        for c in setup:
+            im.cmd(c)
+        n0, _ = parse_journal(im.cmd("journal D 0"))
+        if im.cmd("readonly W") != "ok 1":
+            continue
+        n1, ops = parse_journal(im.cmd("journal D %d" % n0))
+        for cut in range(n0, n1 + 1):
+            res.count("crashed-readonly-then-again")
+            im.cmd("drop X")
+            im.cmd("fork X D %d" % cut)
+            lab = "%d appends; make_read_only crashed after %d of its %d storage operations; reopen; make_read_only again" % (nap, cut - n0, n1 - n0)
+            if im.cmd("open X X") != "ok":
+                found.append(dict(key="crash:reopen", what=lab + ": reopen failed", replay=dict(setup=setup, cut=cut - n0)))
+                break
+            a = im.cmd("readonly X")
+            if a not in ("ok 0", "ok 1"):
+                found.append(dict(key="readonly:again", what=lab + " answered " + a[:60], replay=dict(setup=setup, cut=cut - n0)))
+                break
+            info = im.cmd("info X")
+            if info != "ok %d %d %d 0 0" % (nap, sum(j + 1 for j in range(nap)), nap):
+                found.append(dict(key="readonly:again-state", what=lab + ": info = " + info, replay=dict(setup=setup, cut=cut - n0)))
+                break
+            files = jsfmt.parse_files(im.cmd("files X"))
+            hit = [name for name, content in zip(("tree", "data", "bitfield", "oplog"), files) if any(w in content for w in key_windows(secret))]
+            if hit:
+                found.append(dict(key="secret:after-crashed-call", what="%s answered %s, but the %s file still contains the secret key" % (lab, a, hit[0]),
+                                  replay=dict(setup=setup, cut=cut - n0, second_call=a)))
+                break
+        im.cmd("drop X")
+        if found:
+            break
+    return found
+
+
 def main(tier, seed):
     res = Result("C12", tier, seed)
     res.gate = coq_gate("C12.v", clean=(tier == "thorough"))
@@ -69,11 +113,12 @@ def main(tier, seed):
         # replica: not writable, make_read_only is a no-op
         pair.reset(); pair.raw("disk D"); pair.do("new W D replica")
         n0, _ = parse_journal(pair.impl.cmd("journal D 0"))
-        ia, _ = pair.do("append W 61"); ib, _ = pair.do("readonly W")
+        ia, _ = pair.do("append W 61")
         n1, _ = parse_journal(pair.impl.cmd("journal D 0"))
+        ib, _ = pair.do("readonly W")
         res.add_case(("replica",), True)
         if ia != "err NotWritable" or ib != "ok 0" or n1 != n0:
-            res.violations.append(dict(key="replica:writes", what="replica: append=%s readonly=%s storage operations=%d" % (ia, ib, n1 - n0), replay=dict()))
+            res.violations.append(dict(key="replica:writes", what="replica: append=%s (storage operations=%d) readonly=%s" % (ia, n1 - n0, ib), replay=dict()))
         n = 25 if tier == "quick" else 400
         for k in range(n):
             h = random_history(r, r.choice([2, 4, 7, 11]), reopen_p=0.15, clear_p=0.15)
@@ -91,6 +136,8 @@ def main(tier, seed):
                 res.disagreements.extend(pair.disagreements[:2]); pair.disagreements = []
             if len(res.violations) >= 4:
                 break
+        res.violations.extend(crashed_call_then_again(pair, res, secret, tier))
+        res.add_case(("crashed-call-then-again",), True)
         res.extra["commands_compared"] = pair.ncmp
     finally:
         pair.close()
